@@ -26,7 +26,7 @@ def shards(tier):
 
 
 def required_classes(tier):
-    return ["sign:custom-suite", "sktopk", "sign:basic", "sign:aug", "sign:pop", "popprove", "aggregate", "key:boundary", "key:bitlen", "key:random", "msg:empty", "msg:block-boundary", "msg:long"]
+    return ["soak:distinct-secret-keys", "sign:custom-suite", "sktopk", "sign:basic", "sign:aug", "sign:pop", "popprove", "aggregate", "key:boundary", "key:bitlen", "key:random", "msg:empty", "msg:block-boundary", "msg:long"]
 
 
 def _printable_short(m):
@@ -108,6 +108,22 @@ def run(rec):
         call(Sx.SkToPk, sk)
         if key.startswith("pop") and hasattr(Sx, "PopProve"):
             call(Sx.PopProve, sk)
+    # soak: distinct secret keys through SkToPk, the first ones re-probed
+    if rec.shard == 6 or not quick:
+        from .common import soak_size, soak_then_reprobe
+        first = [rng.randrange(1, R) for _ in range(2)]
+        Sx = suites["basic"]
+
+        def distinct_sks():
+            j = 0
+            base = rng.randrange(1, R // 2)
+            while True:
+                j += 1
+                yield (lambda k=base + j: call(Sx.SkToPk, k))
+        soak_then_reprobe(rec, "distinct-secret-keys", [lambda k=k: (call(Sx.SkToPk, k), call(Sx.Sign, k, b"soak probe")) for k in first], distinct_sks(),
+                          soak_size(["py_ecc.bls.ciphersuites", "py_ecc.bls.g2_primitives", "py_ecc.bls.point_compression"]))
+    else:
+        rec.case("soak:distinct-secret-keys", None, nontrivial=False)
     # long message once per run
     if rec.shard == 0:
         m = rng.randbytes(4096 if quick else 65536)
